@@ -323,7 +323,8 @@ impl TableLiteralPropertyType {
         self.tokens.as_ref()
     }
 
-    super::impl_token_fns!(target = [string] iter = [tokens]);
+    // the string key is a type node visited on its own, like the other nested types
+    super::impl_token_fns!(iter = [tokens]);
 }
 
 /// Represents an entry in a table type annotation.
